@@ -12,8 +12,10 @@ class C08(S4UCheck):
             'put carries a unique payload object (id, size, checksum); ops: put / put(timeout) / put_async+wait|test|'
             'wait_any / put_init+start / put_detach, get / get(timeout) / get_async+wait|wait_for|test, cancel, '
             'mailboxes with a permanent receiver set before any traffic (class "perm") or after sends are queued (class '
-            '"perm_late", a fraction of runs); dyadic think times. Oracle: FIFO matching reference model over the '
-            'request order: each successful get returns the payload of the oldest unmatched put, at most once, intact; '
+            '"perm_late", a fraction of runs); class "filter": blocking puts/gets carrying match data (tag) and/or a match filter '
+            '(only peers with a given tag are accepted), mixed with plain requests; dyadic think times. Oracle: FIFO matching reference model over the '
+            'request order: each successful get returns the payload of the oldest unmatched put that both filters accept, at most '
+            'once, intact; '
             'a put that reported a failure is never delivered; a blocking put/get returns normally only if matched. '
             'non-trivial = at least 2 payloads delivered and both receive-first and send-first matches or a timeout '
             'occurred; distinct = hash of the global (actor, op, object) call sequence')
@@ -21,6 +23,53 @@ class C08(S4UCheck):
                    'a request timing out at the very date a counterpart is posted: either outcome accepted (follows the run)',
                    'fault-free campaign: no kills or resource failures here (those are in C10/C11 campaigns)']
     budgets = {'quick': dict(runs=2500, wall=55), 'thorough': dict(runs=60000, wall=800)}
+
+    def gen_filter(self, plan, r, nh, mbs):
+        """match data and match filters (the low-level send/recv of s4u::Comm): tagged and untagged blocking puts,
+        gets that only accept one tag, puts that only accept tagged gets, mixed with plain asynchronous requests.
+        No timeout, cancel or permanent receiver in this class."""
+        nact = r.randint(3, 6)
+        sn = [0]
+        for ai in range(nact):
+            ops = []
+            sender = r.chance(0.5)
+            for _ in range(r.randint(2, 6)):
+                mb = r.choice(mbs[:2])
+                if r.chance(0.6):
+                    ops.append(['sleep', gen.think(r, 0.2)])
+                send = sender if r.chance(0.8) else not sender
+                c = r.below(10)
+                size = r.choice([1.0, 1000.0, 1e5])
+                tag = r.choice([1, 2, 3])
+                if send:
+                    if c < 3:
+                        ops.append(['put', mb, size, 'tag=%d' % tag])
+                    elif c < 5:
+                        ops.append(['put', mb, size])
+                    elif c < 6:
+                        ops.append(['put', mb, size, 'tag=%d' % tag, 'want=%d' % r.choice([1, 2, 3])])
+                    elif c < 7:
+                        ops.append(['put', mb, size, 'want=%d' % r.choice([1, 2])])
+                    else:
+                        sn[0] += 1
+                        ops.append(['put_async', 'x%d' % sn[0], mb, size])
+                        ops.append(['wait', 'x%d' % sn[0]])
+                else:
+                    if c < 4:
+                        ops.append(['get', mb, 'want=%d' % tag])
+                    elif c < 6:
+                        ops.append(['get', mb])
+                    elif c < 7:
+                        ops.append(['get', mb, 'tag=%d' % tag])
+                    elif c < 8:
+                        ops.append(['get', mb, 'tag=%d' % tag, 'want=%d' % r.choice([1, 2, 3])])
+                    else:
+                        sn[0] += 1
+                        ops.append(['get_async', 'x%d' % sn[0], mb])
+                        ops.append(['wait', 'x%d' % sn[0]])
+            plan['actors'].append(dict(id='a%d' % ai, host='h%d' % r.below(nh), ops=ops))
+        gen.knobs(plan, r)
+        return plan
 
     def gen(self, seed, tier):
         r = Rng(seed, 'c08')
@@ -31,8 +80,10 @@ class C08(S4UCheck):
         mbs = ['mb%d' % i for i in range(nmb)]
         plan['objects'] = dict(mbox=mbs)
         nact = r.randint(2, 6)
-        mode = r.wchoice([('plain', 6), ('perm', 2), ('perm_late', 1)])
+        mode = r.wchoice([('plain', 6), ('perm', 2), ('perm_late', 1), ('filter', 2)])
         plan['class'] = mode
+        if mode == 'filter':
+            return self.gen_filter(plan, r, nh, mbs)
         slot_n = [0]
 
         def slot():
@@ -48,7 +99,7 @@ class C08(S4UCheck):
                     ops.append(['sleep', gen.think(r, 0.2)])
                 send = sender if r.chance(0.8) else not sender
                 c = r.below(10)
-                size = r.choice([1.0, 1000.0, 1e5, 1e6])
+                size = r.choice([0.0, 1.0, 1000.0, 1e5, 1e6])
                 if send:
                     if c < 4:
                         ops.append(['put', mb, size])
